@@ -123,6 +123,23 @@ func guards(fd *ast.FuncDecl) []string {
 	return out
 }
 
+// split separates the effects whose ORDER matters (physical writes and the count updates that
+// determine what they store) from the in-memory / sqlite statements, which are reported sorted:
+// moving `chain.lastGroup = …` past `chain.count--` is a harmless edit and must not change the facts.
+func split(eff []string) (ordered, memory []string) {
+	for _, e := range eff {
+		k := strings.Fields(e)[0]
+		if k == "Put" || k == "Delete" || k == "NewBatch" || strings.HasSuffix(k, ".count++") || strings.HasSuffix(k, ".count--") ||
+			(strings.HasSuffix(k, ".count") && len(strings.Fields(e)) > 1) {
+			ordered = append(ordered, e)
+		} else {
+			memory = append(memory, e)
+		}
+	}
+	sort.Strings(memory)
+	return
+}
+
 func leanList(name string, xs []string) string {
 	var b strings.Builder
 	fmt.Fprintf(&b, "def %s : List String := [", name)
@@ -157,6 +174,7 @@ func main() {
 	}
 	sort.Strings(files)
 	var saveEff, removeEff, addGuards, writers, saveCallers, removeCallers []string
+	var saveMem, removeMem []string
 	found := map[string]bool{}
 	for _, f := range files {
 		base := filepath.Base(f)
@@ -177,11 +195,11 @@ func main() {
 			isGC := recvName(fd) != ""
 			scoped := isGC || name == "initGroupChain" // start-up builds the chain in a local named chain
 			if isGC && name == "save" {
-				saveEff = effects(fd)
+				saveEff, saveMem = split(effects(fd))
 				found["save"] = true
 			}
 			if isGC && name == "remove" {
-				removeEff = effects(fd)
+				removeEff, removeMem = split(effects(fd))
 				found["remove"] = true
 			}
 			if isGC && name == "AddGroup" {
@@ -234,13 +252,18 @@ func main() {
 	var b strings.Builder
 	b.WriteString("/- GENERATED by gen/cmd/c19facts from src/core/*.go — do not edit. -/\n")
 	b.WriteString("namespace Rangers.Generated.GroupChainFacts\n\n")
-	b.WriteString("/-- Ordered effects of `groupChain.save` on the store, the in-memory mirror and sqlite. -/\n")
+	b.WriteString("/-- Ordered store effects of `groupChain.save` (physical writes and count updates). -/\n")
 	b.WriteString(leanList("saveEffects", saveEff))
+	b.WriteString("\n/-- In-memory / sqlite statements of `save` (sorted; their relative order is not a fact). -/\n")
+	b.WriteString(leanList("saveMemory", saveMem))
 	b.WriteString("\n/-- Ordered effects of `groupChain.remove`. -/\n")
 	b.WriteString(leanList("removeEffects", removeEff))
+	b.WriteString("\n/-- In-memory / sqlite statements of `remove` (sorted). -/\n")
+	b.WriteString(leanList("removeMemory", removeMem))
 	b.WriteString("\n/-- Top-level guards of `groupChain.AddGroup`, in order, ending with the call of save. -/\n")
 	b.WriteString(leanList("addGuards", addGuards))
-	b.WriteString("\n/-- Every statement in package core that writes the group store, `count` or `lastGroup`. -/\n")
+	b.WriteString("\n/-- Every statement in package core that writes the group store, `count` or `lastGroup` (sorted). -/\n")
+	sort.Strings(writers)
 	b.WriteString(leanList("stateWriters", writers))
 	b.WriteString("\n" + leanList("saveCallers", saveCallers))
 	b.WriteString("\n" + leanList("removeCallers", removeCallers))
